@@ -71,6 +71,8 @@ class Cx:
         if f is None:
             raise AnalysisError("anchor vanished: MolGrid.interpolate")
         self.m["mol_interpolate"] = f
+        self.atom_globals = {k: v for k, v in e10.module_globals_of(repo.modules["atomgrid"].tree).items()
+                             if not isinstance(v, ast.ClassDef)}
         self.utils = {g.name: g.node for g in repo.funcs.values()
                       if g.module == "utils" and g.cls is None and g.parent is None and isinstance(g.node, ast.FunctionDef)}
         if "convert_derivative_from_spherical_to_cartesian" not in self.utils:
@@ -118,7 +120,8 @@ class Atom:
                 return e10._obj_array([[sp.Symbol(f"gr{tag}{n}"), sp.Symbol(f"gth{tag}{n}"), sp.Symbol(f"gph{tag}{n}")] for n in range(atom.N)])
             return e10._obj_array([[atom.r[n], atom.th[n], atom.ph[n]] for n in range(npts)])
 
-        self.obj = e10.Obj(f"atomgrid{tag}", cls="AtomGrid", l_max=self.l_max, size=self.N, n_shells=2,
+        rot = {"": 0, "a": 0, "b": 11}.get(tag, 0)
+        self.obj = e10.Obj(f"atomgrid{tag}", cls="AtomGrid", l_max=self.l_max, size=self.N, n_shells=2, rotate=rot, _rot=rot,
                            indices=e10.arr(self.idx), degrees=list(self.degs), _degs=list(self.degs), method="lebedev",
                            weights=e10.arr(self.W), _basis=None,
                            rgrid=e10.Obj("rgrid", points=e10.arr(self.rk), weights=e10.arr(self.wk)),
@@ -151,9 +154,10 @@ class Atom:
                     "generate_derivative_real_spherical_harmonics": dharmonics, "CubicSpline": cubic,
                     "AngularGrid": e10.Cls("AngularGrid")}
 
-    def interp(self, extra_funcs=None):
+    def interp(self, extra_funcs=None, shared=None):
         funcs = dict(self.cx.utils)
-        it = self.cx.e10.Interp(funcs, self.ext, generic=self.generic)
+        it = shared if shared is not None else self.cx.e10.Interp(funcs, self.ext, generic=self.generic,
+                                                                   module_globals=self.cx.atom_globals)
         repo, obj = self.cx.repo, self.obj
 
         def resolver(name):
@@ -241,7 +245,7 @@ def rule_projection(rep, cx):
                           f"angular integral divided by 4 pi", here)
     # ---- D4
     n4 = 0
-    for degs in ((3, 5), (5, 5), (5, 3)):
+    for degs in ((3, 5), (5, 5), (5, 3), (4, 6), (6, 4)):
         at = Atom(cx, degs=degs)
         it = at.interp()
         at.bind(it, "integrate_angular_coordinates")
@@ -283,7 +287,52 @@ def rule_projection(rep, cx):
         if not bad:
             rep.ok("D4.radial-components", f"AtomGrid.radial_component_splines[degrees {degs}]", here,
                    f"{at.rows} splines over r of the shell projections, truncated on lower-degree shells")
-    rep.floor("D4 entries", n4, 3 * 9 * 2)
+    rep.floor("D4 entries", n4, 3 * 9 * 2 + 2 * 16 * 2)
+    # ---- D8: a second grid with the same degrees but other angles (another rotation) projects onto its own basis
+    a1, a2 = Atom(cx, tag="a"), Atom(cx, tag="b")
+    here = cx.loc("radial_component_splines")
+
+    def harmonics(l, theta, phi):
+        first = str(list(theta)[0])
+        for at in (a1, a2):
+            if first.startswith(f"gth{at.tag}"):
+                return at.ext["generate_real_spherical_harmonics"](l, theta, phi)
+        raise e10.Undecided("harmonics at unknown angles")
+
+    def cubic(x=None, y=None, **kw):
+        first = str(list(x)[0]) if x is not None else ""
+        for at in (a1, a2):
+            if first.startswith(f"rk{at.tag}"):
+                return at.ext["CubicSpline"](x=x, y=y, **kw)
+        raise e10.Undecided("a spline over unknown radial points")
+    shared = e10.Interp(dict(cx.utils), {"generate_real_spherical_harmonics": harmonics, "CubicSpline": cubic,
+                                         "AngularGrid": e10.Cls("AngularGrid")},
+                        generic=a1.generic | a2.generic, module_globals=cx.atom_globals)
+    ok = True
+    for at in (a1, a2):
+        at.interp(shared=shared)
+        at.bind(shared, "integrate_angular_coordinates")
+        cx.guard("AtomGrid.radial_component_splines", shared.call_def, cx.m["radial_component_splines"].node,
+                 [at.obj, e10.arr(at.f)], {}, {})
+    for at in (a1, a2):
+        if len(at.splines) != at.rows:
+            ok = False
+            continue
+        for i in range(at.rows):
+            y = at.splines[i][1]
+            for k in range(2):
+                keep = i < (at.degs[k] // 2 + 1) ** 2
+                want = at.shell_sum([sp.Symbol(f"B{at.tag}_{i}_{n}") * at.f[n] for n in range(at.N)], k) if keep else sp.Integer(0)
+                if not _eq(y[k], want):
+                    ok = False
+    if ok:
+        rep.ok("D8.own-basis", "AtomGrid.radial_component_splines[two grids, same degrees, different angles]", here,
+               "each grid projects onto the harmonics at its own angles")
+    else:
+        rep.violation("D8.own-basis", "atomgrid.AtomGrid.radial_component_splines", "second-grid",
+                      "two grids with the same method and degrees but different point angles (e.g. another rotation seed) are "
+                      "decomposed one after the other: the second one is not projected onto the harmonics at its own angles "
+                      "(a basis shared between grids must be keyed by everything the angles depend on)", here)
 
 
 def _jacobian_inverse(r, th, ph):
